@@ -490,6 +490,12 @@ static int mode_solve(int cases, int nr_exp)
     Rng rng(seed_from_env());
     for (int c = 0; c < cases; c++) {
         Opts o = cases == 1 && nr_exp == -10 ? f10_opts() : random_solve_opts(rng, nr_exp);
+        // the first 18 cases cover (cycle type) x (no / implicit / combined extrapolation) x (two levels / full depth) with a full iteration
+        // budget and both tolerances, whatever the seed: the convergence oracle then sees every cycle file and both coarse-solve branches
+        if (!(cases == 1 && nr_exp == -10) && c < 18 && cases >= 18) {
+            o.set("multigridCycle", c % 3); o.set("extrapolation", std::vector<int>{0, 1, 3}[(c / 3) % 3]); o.set("maxLevels", (c / 9) % 2 == 0 ? 2 : -1);
+            o.set("maxIterations", 150); o.set("absoluteTolerance", 1e-8); o.set("relativeTolerance", 1e-8);
+        }
         if (o.kv["absoluteTolerance"] == "-1" && o.kv["relativeTolerance"] == "-1") o.set("maxIterations", 3);
         GMGPolar g;
         o.apply(g);
@@ -805,6 +811,9 @@ static int mode_order(int cases, int base_exp)
     Rng rng(seed_from_env());
     for (int c = 0; c < cases; c++) {
         int geometry = rng.range(0, 2), problem = rng.range(0, 2), alpha = rng.range(0, 3), beta = rng.range(0, 1), dirbc = rng.range(0, 1), strat = rng.range(0, 1);
+        // strategy and cache flags are covered deterministically (give without the geometry cache on a non-circular mapping in cases 1, 5, …)
+        strat = c % 2;
+        if (c % 4 == 1) geometry = 1 + (c / 4) % 2;
         if (c == 0) { geometry = 2; problem = 1; alpha = 0; beta = 0; } // probe of known finding F9
         else if (geometry == 2 && alpha == 0) alpha = rng.range(1, 3);    // … and only there: a configuration of that class would mask any other defect
         // with a Dirichlet inner boundary the inner radius is varied too: at R0 = 1e-5 the interior boundary data hardly matter
@@ -820,7 +829,7 @@ static int mode_order(int cases, int base_exp)
                 const int mode = extrap == 0 ? 0 : 1 + (c % 3), fmg = extrap == 0 ? 0 : (c / 3) % 2;
                 // the give strategy also runs without the caches (the uncached branches of build_rhs_f / the operators evaluate the
                 // geometry and the coefficients themselves): derived from the case number, so the random stream stays as calibrated
-                const int cg = strat == 1 ? c % 2 : 1, cc = strat == 1 ? (c / 2) % 2 : 1;
+                const int cg = strat == 1 ? (c / 2) % 2 : 1, cc = strat == 1 ? (c / 4) % 2 : 1;
                 o.set("cacheDensityProfileCoefficients", cc); o.set("cacheDomainGeometry", cg); o.set("maxOpenMPThreads", 4); o.set("extrapolation", mode);
                 o.set("FMG", fmg); o.set("FMG_iterations", 2); o.set("FMG_cycle", 0); o.set("multigridCycle", 0); o.set("preSmoothingSteps", 1); o.set("postSmoothingSteps", 1); o.set("maxIterations", 150);
                 // the discretisation error does not depend on the depth of the hierarchy either: every fourth case caps it at two levels
@@ -838,7 +847,7 @@ static int mode_order(int cases, int base_exp)
                 einf += (div ? "," : "") + hex(b ? *b : -1.0);
             }
             printf("ORD geometry=%d problem=%d alpha=%d beta=%d dirbc=%d R0=%g strat=%d cachegeo=%d cachecoef=%d extrap=%d mode=%d fmg=%d base_exp=%d e2=%s einf=%s\n", geometry, problem, alpha, beta, dirbc, R0, strat,
-                   strat == 1 ? c % 2 : 1, strat == 1 ? (c / 2) % 2 : 1, extrap,
+                   strat == 1 ? (c / 2) % 2 : 1, strat == 1 ? (c / 4) % 2 : 1, extrap,
                    extrap == 0 ? 0 : 1 + (c % 3), extrap == 0 ? 0 : (c / 3) % 2, base_exp, e2.c_str(), einf.c_str());
         }
     }
